@@ -219,8 +219,14 @@ def run_sim_class(chk, cls, scs, mons, variant=None, batch=250, tag=None):
             sc["build_twice"] = True           # builder.build() called twice, the second simulator is the one that runs
         if "poll_done" not in sc and k % 4 == 1:
             sc["poll_done"] = True             # is_simulation_done() asked before the run and between steps
+        if "rerun" not in sc and k % 8 == 6 and sc["drv"][0] == "run":
+            sc["rerun"] = True                 # run once to the end, build again from the same builder, record the second run
         if "int_numbers" not in sc and k % 7 == 5:
             sc["int_numbers"] = True           # whole numbers handed over as ints (positions, times, speeds, ranges, delays)
+        if "enum_names" not in sc and "odd_names" not in sc and k % 5 == 1:
+            sc["enum_names"] = True            # timer names given as members of a str-Enum
+        if "raw_commands" not in sc and k % 6 == 2:
+            sc["raw_commands"] = True          # generic command classes with the command type as a plain int
         if "odd_names" not in sc and k % 5 == 3:
             sc["odd_names"] = True             # timer names containing pattern characters ("slot[1]", "s*", "done?")
         if "truthy_preds" not in sc and k % 2 == 1:
@@ -279,7 +285,7 @@ def run_sim_class(chk, cls, scs, mons, variant=None, batch=250, tag=None):
 
 def _brief(sc):
     d = {k: sc[k] for k in ("handlers", "nodes", "med", "mob", "asserts", "seed", "dur", "maxit", "drv", "script")}
-    for k in ("reuse_commands", "fresh_controllers", "odd_names", "truthy_preds", "build_twice", "poll_done", "int_numbers", "variant", "stream"):
+    for k in ("reuse_commands", "fresh_controllers", "odd_names", "truthy_preds", "build_twice", "poll_done", "int_numbers", "enum_names", "raw_commands", "rerun", "variant", "stream"):
         if k in sc:
             d[k] = sc[k]
     return d
@@ -592,6 +598,21 @@ def check_C06(chk, R, S):
                     d = corr.first_diff(b["impl"], r["impl"])
                     chk.violation("variant:%s" % "+".join(sorted(var)), r["sc"],
                                   ["C06: trace differs between the default configuration and %s: line %d: %r vs %r" % (var, d[0], d[1], d[2])])
+        # the scenario run once to its end, built again from the same builder (same handler objects) and run again:
+        # the second run must be what a fresh run is
+        again = []
+        for r in base:
+            c2 = copy.deepcopy(r["sc"])
+            c2["rerun"] = True
+            again.append(c2)
+        res = corr.corr_sims(again)
+        for r, b in zip(res, base):
+            chk.record("run-again", _brief(r["sc"]), False)
+            chk.validated += 1
+            if r["impl"] != b["impl"]:
+                d = corr.first_diff(b["impl"], r["impl"])
+                chk.violation("run-again", r["sc"], ["C06: the scenario run a second time (built again from the same builder after a first "
+                                                     "complete run) differs from its fresh run at line %d: %r vs %r" % d])
         # stepped driving (with extra steps) must give the same callbacks as the blocking call
         stepped = []
         for r in base:
@@ -1269,6 +1290,8 @@ def gen_disp_case(R, maxops=10):
         else:
             ops.append(("disp", i, k))
     case = {"ninst": ninst, "beh": beh, "ops": ops}
+    if R.random() < 0.4:
+        case["bound"] = True               # handlers are bound methods, looked up anew for every (un)registration
     if R.random() < 0.5:
         # protocol instances inside a real simulation, callbacks delivered through the node's encapsulator; the
         # dispatcher is typically first asked for in the middle of the run (after some callbacks were delivered)
